@@ -589,13 +589,56 @@ class C15(Property):
                         for o in c["ops"]]
             return c
 
-        res = []
-        for i in range(0, len(cases), 300):
-            chunk = [wire(c) for c in cases[i:i + 300]]
+        def hostile(c):
+            """inputs on which a changed tree may allocate without bound: integers beyond 2^31"""
+            big = lambda v: isinstance(v, int) and abs(v) >= 2 ** 31
+            return any(big(x) for o in c.get("ops") or [] for x in o[2:]) or \
+                any(big(w) for it in c.get("insts") or [] for _, w in it["nodes"])
+
+        SMALL = {"VERIF_C15_AS_MB": "3072"}
+
+        def crashed(c, out):
+            """The executor process died while running this case (runtime fatal error such as out of memory
+            under the address-space limit): the operations did not return.  Reported on this very input: the
+            tables come from a run of the same universe without operations / instances; a ring history then
+            shows -2 for every observation after the first, a script no touch at all."""
+            if c.get("kind") == "script":
+                rc, out0, r0 = vlib.go_run(self.bin, [dict(c, insts=[], sops=[])], tag="c15", timeout=300)
+                if rc != 0 or len(r0) != 1:
+                    raise ExecError("c15 executor rc=%s: %s" % (rc, out0[-2000:]))
+                o = r0[0]
+                o["touch"] = [[] for _ in c["sops"]]
+                o["res"] = ["err" for _ in c["sops"]]
+                o["snap"] = [[] for q in c["sops"] if q[0] == "snap"]
+            elif c.get("kind"):
+                raise ExecError("c15 executor died on a %s case: %s" % (c["kind"], out[-1500:]))
+            else:
+                rc, out0, r0 = vlib.go_run(self.bin, [dict(wire(c), ops=[])], tag="c15", timeout=300)
+                if rc != 0 or len(r0) != 1:
+                    raise ExecError("c15 executor rc=%s: %s" % (rc, out0[-2000:]))
+                o = r0[0]
+                o["gets"] = o["gets"][:1] + [[-2] * len(c["probes"]) for _ in c["ops"]]
+            o["crashed"] = out[-600:]
+            return o
+
+        # hostile inputs run last, in a process of their own: if a changed tree blows up on them, everything
+        # else has been observed, and the culprits are found one process per case under a small memory limit
+        order = [i for i, c in enumerate(cases) if not hostile(c)]
+        nh = len(order)
+        order += [i for i, c in enumerate(cases) if hostile(c)]
+        res = [None] * len(cases)
+        bounds = list(range(0, nh, 300)) + [nh]
+        chunks = [order[a:b] for a, b in zip(bounds, bounds[1:])] + ([order[nh:]] if nh < len(order) else [])
+        for idx in chunks:
+            chunk = [wire(cases[i]) for i in idx]
             rc, out, r = vlib.go_run(self.bin, chunk, tag="c15", timeout=600)
             if rc != 0 or len(r) != len(chunk):
-                raise ExecError("c15 executor rc=%s: %s" % (rc, out[-2000:]))
-            res += r
+                r = []
+                for i, w in zip(idx, chunk):
+                    rc1, out1, r1 = vlib.go_run(self.bin, [w], tag="c15", timeout=300, env=SMALL)
+                    r.append(r1[0] if rc1 == 0 and len(r1) == 1 else crashed(cases[i], out1))
+            for i, o in zip(idx, r):
+                res[i] = o
         for r in res:
             if r.get("err"):
                 raise ExecError("c15 executor: case %s: %s" % (r.get("id"), r["err"]))
@@ -1012,6 +1055,8 @@ class C15(Property):
         if case.get("kind"):
             return ("%s cluster: a key was read / written / deleted on a server other than the one the ring "
                     "designates (rows: Get, Set, multi-key Del; -3 = none or several servers)" % case["kind"])
+        if obs.get("crashed"):
+            return "the executor process died while running this history (e.g. runtime: out of memory): " + obs["crashed"][-300:]
         if any(g == -2 for row in obs["gets"] for g in row):
             return "Get panicked (keys empty while the ring is not)"
         return ("Get returned a non-member / none with members present, or (collision-free universe) the assignment "
